@@ -13,7 +13,7 @@ from hypothesis import strategies as st
 
 from vf.core import SubCheck, Violation, bit_equal, require, value
 from vf.gen.common import gauss2d, noise
-from vf.props import c19
+from vf.props import c13, c19
 
 ASSUMPTIONS = [
     'reference = fresh object from deep copies of the same constructor '
@@ -545,6 +545,10 @@ SUBCHECKS = [
     SubCheck('profile_history', c19.history_cases(), c19.check_history,
              'see C19 history: first read of an array after a normalize call',
              quick=(8, 100), thorough=(16, 2000)),
+    SubCheck('gridded_history', c13.gridded_cases(), c13.check_gridded,
+             'see C13 gridded: evaluations in >=2 different cells, copies and '
+             'parameter changes before the compared evaluation (fresh-model '
+             'reference)', quick=(8, 60), thorough=(16, 1500)),
     SubCheck('psf_repeat', psf_cases(), check_psf_repeat,
              'non-trivial = >=2 calls of different kinds (finder / init_params '
              '/ init_params with group_id) on one instance',
